@@ -123,6 +123,22 @@ def replay_ser(state):
         pass
     except Exception as exc:  # noqa
         obs["jd_err"] = type(exc).__name__ + ": " + str(exc)[:160]
+    # several elements in one call: an inner class as the PRIMARY element, the whole tree after it
+    # (the first element is the top-level schema; the others only contribute definitions)
+    try:
+        from statham.schema.elements.meta import ObjectMeta as _OM2
+        inner_cls = [x for x in drive.walk_elements(el) if x is not el and isinstance(x, _OM2)]
+        if inner_cls:
+            prim = inner_cls[0]
+            obs["multi_kinds"] = [drive.call(prim, v)[0] for v in pyvals]
+            jx = serialize_json(prim, el)
+            json.dumps(jx)
+            obs["jx"] = jx
+            obs["jx_tagged"] = codec.py_to_tagged(jx)
+    except ValueError:
+        pass
+    except Exception as exc:  # noqa
+        obs["jx_err"] = type(exc).__name__ + ": " + str(exc)[:160]
     try:
         j1, el1 = _reparse(copy.deepcopy(j0))
         obs["j1"] = j1
@@ -337,6 +353,14 @@ def run(pid, tier, replay_file=None):
             elif "jd_tagged" in ob:
                 add_event(si, "C03defs", '[id |-> @ID@, p |-> "C03", j |-> %s, kinds |-> %s]'
                           % (tlajson_to_tla(ob["jd_tagged"]), kinds))
+            if "jx_err" in ob:
+                rep.violation(("C03", "serialize-several-elements-raises", sig),
+                              f"serialize_json(<inner class>, <tree>) fails for {sjson(st)}: {ob['jx_err']}",
+                              dict(state=st, observed=_slim(ob)))
+            elif "jx_tagged" in ob:
+                mk = "<<" + ", ".join(codec.tla_str(k) for k in ob["multi_kinds"]) + ">>"
+                add_event(si, "C03multi", '[id |-> @ID@, p |-> "C03", j |-> %s, kinds |-> %s]'
+                          % (tlajson_to_tla(ob["jx_tagged"]), mk))
         elif pid == "C06":
             if "j0_err" in ob:
                 continue
@@ -401,8 +425,8 @@ def run(pid, tier, replay_file=None):
             st, ob = states[si], observations[si]
             clause = rejected[eid]
             if pid == "C03":
-                jj = ob.get("jd") if tag == "C03defs" else ob.get("jv") if tag == "C03dsl" else ob["j0"]
-                msg = (f"serialize_json{' with caller-supplied definitions' if tag == 'C03defs' else ' of the DSL variant with an explicit required list' if tag == 'C03dsl' else ''} of the element parsed from {sjson(st)} gives "
+                jj = ob.get("jd") if tag == "C03defs" else ob.get("jv") if tag == "C03dsl" else ob.get("jx") if tag == "C03multi" else ob["j0"]
+                msg = (f"serialize_json{' with caller-supplied definitions' if tag == 'C03defs' else ' (an inner class first, the whole tree second)' if tag == 'C03multi' else ' of the DSL variant with an explicit required list' if tag == 'C03dsl' else ''} of the element parsed from {sjson(st)} gives "
                        f"{json.dumps(jj)[:240]}: {clause}")
                 key = ("C03", clause, tag, _kwsig_json(jj))
             elif pid == "C06":
